@@ -21,3 +21,10 @@ EXTRA_RUNS["C10"] = [dict(_share_perm)]
 from checklib.props_mcrew import PROPS as _MC
 EXTRA_RUNS["C09"] = [sio_run("c15", "c15_mismatches", "c15_violations", "c15_nontrivial", (200, 4000)),
                      dict([r for r in _MC["C16"]["runs"] if r["component"] == "mcrewseq"][0], n=dict(quick=160, thorough=1600))]
+
+# C06: "a step never modifies the state it was given" at the interpreter boundary: the jsiso cases (scripts that assign,
+# delete and call mutating methods on every part of the bindings they see, executions that fail, bindings JSON cannot
+# write) with the oracle "the caller's bindings are what they were"
+EXTRA_RUNS["C06"] = [dict(component="jsiso", require="Corr.JsCorr", require_vo="Corr/JsCorr.vo",
+                          n=dict(quick=200, thorough=3000), shard=125, timeout=dict(quick=240, thorough=1200),
+                          evals=dict(M="iso_mismatches", V="c06_js_violations"))]
